@@ -471,6 +471,54 @@ impl<'a> Emitter<'a> {
         }
     }
 
+    /// FOR ...: body: NEXT on the current line (the body holds simple statements and
+    /// one-line FOR loops only).
+    fn one_line_for(&mut self, s: &Stmt, in_function: Option<bool>) {
+        if let StmtKind::For {
+            var,
+            from,
+            to,
+            step,
+            body,
+        } = &s.kind
+        {
+            let mut t = format!(
+                "{} {} = {} {} {}",
+                self.kw("FOR"),
+                self.ident(var),
+                self.expr(from, false),
+                self.kw("TO"),
+                self.expr(to, false)
+            );
+            if let Some(st) = step {
+                t.push_str(&format!(" {} {}", self.kw("STEP"), self.expr(st, false)));
+            }
+            self.out.starts.insert(s.id, (self.row(), self.col()));
+            self.cur.push_str(&t);
+            for b in body {
+                self.cur.push_str(" : ");
+                match &b.kind {
+                    StmtKind::For { .. } => self.one_line_for(b, in_function),
+                    StmtKind::ExitProc => {
+                        let t = if in_function == Some(true) {
+                            self.kw("EXIT FUNCTION")
+                        } else {
+                            self.kw("EXIT SUB")
+                        };
+                        self.place(b.id, &t);
+                    }
+                    _ => {
+                        let t = self.simple_text(b);
+                        self.place(b.id, &t);
+                    }
+                }
+            }
+            self.cur.push_str(" : ");
+            let t = self.kw("NEXT");
+            self.cur.push_str(&t);
+        }
+    }
+
     /// Appends a simple statement's text at the current position and records its span.
     fn place(&mut self, id: StmtId, text: &str) {
         let row = self.row();
@@ -609,6 +657,26 @@ impl<'a> Emitter<'a> {
                     );
                     if let Some(st) = step {
                         t.push_str(&format!(" {} {}", self.kw("STEP"), self.expr(st, false)));
+                    }
+                    // a loop whose body holds only simple statements (or such loops) may be
+                    // written on one line, colon-joined
+                    fn one_line_able(body: &[Stmt]) -> bool {
+                        body.len() <= 3
+                            && body.iter().all(|b| match &b.kind {
+                                StmtKind::For { body, .. } => one_line_able(body),
+                                StmtKind::Label(_) => false,
+                                k => !k.is_block(),
+                            })
+                    }
+                    if self.layout.colon_pct > 0
+                        && one_line_able(body)
+                        && self.rng.chance(self.layout.colon_pct, 150)
+                    {
+                        self.fresh(depth);
+                        self.out.starts.insert(s.id, (self.row(), self.col()));
+                        self.one_line_for(s, in_function);
+                        self.closed = true;
+                        continue;
                     }
                     self.header(s.id, depth, &t);
                     self.list(body, depth + 1, in_function);
